@@ -106,6 +106,13 @@ CHECKS = {
         "Query tables, not the continuum. Observers lie in front of a side (not on a body diagonal), as the docstring requires.",
         "DESIGN.md 5 C18",
     ),
+    "C19": (
+        "exploration",
+        "exhaustive enumeration of a finite configuration space: extruded / revolved / transformed stacks on n x m grids (1..4, thorough 1..5) with 1..4 tiers and every index triple and slice; round shapes and disk sketches in frames; every addressed operation deleted in turn and the written file read back",
+        "grid[k][j][i] must be the operation whose corners are those of cell (column i, row j, tier k) computed from the construction parameters; get_slice(axis, idx) exactly the cells with that index, each once; core and shell partition the operations and shell membership equals touching the outer surface; deleting an addressed operation removes exactly that block from the file.",
+        "Independent cell geometry computed in mc/props/c19.py.",
+        "DESIGN.md 5 C19",
+    ),
     "C02": (
         "model_checking",
         "stateless model checking of the implementation: choice-point explorer over set iteration orders (iterative deviation bounding) x exhaustive insertion orders / corner numberings / chop placements of small lattice assemblies, edge-family reference model",
